@@ -46,7 +46,8 @@ PATCH_COMBOS_24 = [(1, 1, 1), (2, 1, 1), (1, 2, 1), (1, 1, 2), (2, 2, 1), (2, 1,
 PATCH_COMBOS_BIG = PATCH_COMBOS_24 + [(3, 3, 1), (3, 2, 2), (2, 3, 3), (3, 3, 3), (1, 3, 3), (3, 3, 2)]
 
 
-def draw_cfg(rng, quick=True):
+def draw_cfg(rng, quick=True, force=None):
+    force = force or {}
     dyadic = bool(rng.random() < 0.4)
     combos = PATCH_COMBOS_24 if quick else PATCH_COMBOS_BIG
     n = combos[int(rng.integers(len(combos)))]
@@ -70,10 +71,17 @@ def draw_cfg(rng, quick=True):
             alpha[w, :] = 0.0
         elif u < 0.3:
             alpha[w, 0] = 1.0
+    # walls given with INTEGER absorption values (rigid 0 / fully absorbing 1), as a user would type them
+    int_alpha = bool(rng.random() < 0.2) or bool(force.get("int_alpha"))
+    if int_alpha:
+        alpha = rng.integers(0, 2, (nwalls, nb)).astype(float)
+        alpha[0, :] = 0.0
     scat = np.ones((nwalls, nb))
     if rng.random() < 0.3:
         scat = np.round(rng.uniform(0.1, 1.0, (nwalls, nb)), 3)
     att = np.zeros(nb) if rng.random() < 0.3 else np.round(rng.uniform(0.0, 0.2, nb), 4)
+    if force.get("att_pos"):
+        att = np.round(rng.uniform(0.02, 0.2, nb), 4)
     others = []
     for w in range(nwalls):
         o = [j for j in range(nwalls) if j != w]
@@ -104,7 +112,7 @@ def draw_cfg(rng, quick=True):
         tr = (rng.integers(-40, 41, 3) / 8.0).tolist()
     else:
         tr = np.round(rng.uniform(-12.0, 12.0, 3), 3).tolist()
-    return dict(dyadic=dyadic, n=list(n), ps=ps, dims=dims, subset=[int(s) for s in subset], nb=nb,
+    return dict(int_alpha=int_alpha, dyadic=dyadic, n=list(n), ps=ps, dims=dims, subset=[int(s) for s in subset], nb=nb,
                 alpha=alpha.tolist(), scat=scat.tolist(), att=att.tolist(), others=others, K=K, c=c, fs=fs,
                 src=src, rcv=rcv, power=power, N=int(N), kind=kind, tr=[float(t) for t in tr])
 
@@ -126,7 +134,7 @@ def build(cfg, N=None, tr=None, perm=0, K=None):
         walls.append(PatchesKang(
             poly, cfg["ps"], cfg["others"][wid], wid,
             scattering=np.array(cfg["scat"][wid], dtype=float),
-            absorption=np.array(cfg["alpha"][wid], dtype=float),
+            absorption=np.array(cfg["alpha"][wid], dtype=(int if cfg.get("int_alpha") else float)),
             sound_attenuation_factor=np.array(cfg["att"], dtype=float)))
     s = np.array(cfg["src"], dtype=float) + t
     r = np.array(cfg["rcv"], dtype=float) + t
@@ -291,8 +299,8 @@ def _scene_case(spec):
     rng = np.random.default_rng([spec["seed"], spec["idx"]])
     out = {"evaluations": 1, "mismatches": [], "prop_failures": [], "dist": {}, "nontrivial": []}
     quick = spec.get("quick", True)
-    cfg = draw_cfg(rng, quick)
-    tag = dict(cfg, seed=spec["seed"], idx=spec["idx"], quick=quick, kernel=False)
+    cfg = draw_cfg(rng, quick, spec.get("force"))
+    tag = dict(cfg, engine="kang", seed=spec["seed"], idx=spec["idx"], quick=quick, kernel=False, force=spec.get("force"))
     out["sample"] = tag
     K, N, nb = cfg["K"], cfg["N"], cfg["nb"]
     radi, source, receiver = build(cfg)
@@ -537,7 +545,7 @@ def _kernel_case(spec):
     att_w = np.round(rng.uniform(0.0, 0.3, (nwalls, nb)), 4)      # per-wall attenuation
     K = int(rng.integers(1, 4))
     N = int(rng.integers(3, 50))
-    tag = dict(cfg, seed=spec["seed"], idx=spec["idx"], kernel=True, K=K, N=N)
+    tag = dict(cfg, engine="kang", seed=spec["seed"], idx=spec["idx"], kernel=True, K=K, N=N)
     out["sample"] = dict(kernel=True, seed=spec["seed"], idx=spec["idx"], K=K, N=N, walls=nwalls)
     radi, source, receiver = build(cfg, N=N, K=K)
     if near_int(delay_args(radi, source, receiver)):
@@ -603,7 +611,8 @@ def _guard(fn, spec, kernel):
         return fn(spec)
     except Exception as exc:  # noqa: BLE001
         import traceback
-        tag = dict(seed=spec["seed"], idx=spec["idx"], quick=spec.get("quick", True), kernel=kernel)
+        tag = dict(engine="kang", seed=spec["seed"], idx=spec["idx"], quick=spec.get("quick", True), kernel=kernel,
+                   force=spec.get("force"))
         out = {"evaluations": 1, "mismatches": [], "prop_failures": [], "dist": {"raised": 1}, "nontrivial": [],
                "sample": tag}
         tb = traceback.format_exc()
@@ -631,7 +640,7 @@ def rerun_case(spec):
     rng = np.random.default_rng([spec["seed"], 40000 + spec["idx"]])
     out = {"evaluations": 1, "mismatches": [], "prop_failures": [], "dist": {"rerun": 1}, "nontrivial": []}
     cfg = draw_cfg(rng, True)
-    tag = dict(cfg, seed=spec["seed"], idx=spec["idx"], rerun=True)
+    tag = dict(cfg, engine="kang", seed=spec["seed"], idx=spec["idx"], rerun=True)
     out["sample"] = tag
     fresh, source, receiver = build(cfg)
     fresh.run(source)
@@ -676,13 +685,28 @@ def run(res):
     res.assumptions = ASSUMPTIONS
 
 
+def replay_case(res, case):
+    """re-run a recorded Kang-engine case (also used by the checks that borrow these cases);
+    returns False if [case] is not one of ours"""
+    if not isinstance(case, dict) or "seed" not in case or "idx" not in case:
+        return False
+    if case.get("engine") != "kang" and "subset" not in case:
+        return False
+    if case.get("rerun"):
+        res.absorb(fw.run_parallel(rerun_case, [dict(seed=case["seed"], idx=case["idx"])])[0])
+    elif case.get("kernel") is True:
+        res.absorb(kernel_case(dict(seed=case["seed"], idx=case["idx"])))
+    elif case.get("kernel") is False:
+        res.absorb(scene_case(dict(seed=case["seed"], idx=case["idx"], quick=case.get("quick", True),
+                                   force=case.get("force"))))
+    else:
+        return False
+    return True
+
+
 def replay(res, payload):
     for f in payload.get("failures", []) + payload.get("correspondence", []):
-        case = f.get("case", {})
-        if case.get("kernel"):
-            res.absorb(kernel_case(dict(seed=case["seed"], idx=case["idx"])))
-        else:
-            res.absorb(scene_case(dict(seed=case["seed"], idx=case["idx"], quick=case.get("quick", True))))
+        replay_case(res, f.get("case", {}))
     res.rule = "replay of recorded cases"
     res.not_carried = NOT_CARRIED
     res.assumptions = ASSUMPTIONS
